@@ -33,7 +33,7 @@ StOf(j) == [ss |-> [x \in {Sid(r.id, r.rid) : r \in ToSet(j.ss)} |->
                        SessOf(CHOOSE r \in ToSet(j.ss) : Sid(r.id, r.rid) = x)],
             nk |-> j.nk,
             ch |-> [c \in DOMAIN j.ch |-> ChanOf(j.ch[c])],
-            holds |-> j.holds, srv |-> j.srv, lp |-> j.lp, cfg |-> CfgOf(j.cfg)]
+            holds |-> j.holds, srv |-> ToSet(j.srv), lp |-> j.lp, cfg |-> CfgOf(j.cfg)]
 EnOf(e) == [e EXCEPT !.cfg = CfgOf(e.cfg)]
 ROf(r) == [cmd |-> r.cmd, from |-> r.from, to |-> ToSet(r.to), p |-> r.p]
 OutOf(o) == [i \in DOMAIN o |-> ROf(o[i])]
@@ -64,9 +64,9 @@ Eval(i) ==
   ELSE IF rec.k = "snap"
   THEN (* all replicas were serialized and loaded: the abstract state must be unchanged *)
        LET a == StOf(Trace[i - 1].post)  b == StOf(rec.post) IN
-       /\ IF /\ [a EXCEPT !.srv = <<>>] = [b EXCEPT !.srv = <<>>]
+       /\ IF /\ [a EXCEPT !.srv = {}] = [b EXCEPT !.srv = {}]
              (* serverSessions never shrinks on a running server; a loaded one rebuilds it from the sessions *)
-             /\ {x \in ToSet(a.srv) : Sid(x, 0) \in DOMAIN a.ss /\ a.ss[Sid(x, 0)].sv} = ToSet(b.srv)
+             /\ {x \in a.srv : Sid(x, 0) \in DOMAIN a.ss /\ a.ss[Sid(x, 0)].sv} = b.srv
           THEN TRUE
           ELSE /\ PrintT(<<"PROP", <<"C14", "RoundTripKeepsState">>, rec.h, rec.i>>)
                /\ PrintT(<<"PROP", <<"C03", "RoundTripKeepsState">>, rec.h, rec.i>>)
